@@ -1,6 +1,6 @@
 (* C03 — Sessions of different backends (tenants) never reach each other. *)
 From Coq Require Import List NArith Bool.
-From Verif Require Import model.Hub corr.Hub_preds proofs.Hub_easy proofs.Hub_route proofs.Hub_refuted.
+From Verif Require Import model.Hub corr.Hub_preds proofs.Hub_easy proofs.Hub_route proofs.Hub_refuted proofs.Hub_wf proofs.Hub_isolation.
 Import ListNotations.
 Open Scope N_scope.
 
@@ -35,12 +35,79 @@ Proof. exact room_listener_spec. Qed.
 (* The full statement (P_C03 on every history) is refuted by the code as it is: the map from
    Nextcloud session ids to sessions is shared by all backends (known findings
    C03/room-session-map/global-kick and .../global-api); the witnesses are replayed on the
-   implementation in every run.  isolation_partial = the theorems above, which do not go through
-   that map. *)
+   implementation in every run. *)
 Theorem C03_isolation_refuted_kick : P_hub 3 (model_case 1 [0; 0] global_kick_ops) = Some (5, 1).
 Proof. exact isolation_refuted_kick. Qed.
 Theorem C03_isolation_refuted_api : P_hub 3 (model_case 1 [0; 0] global_api_ops) = Some (5, 1).
 Proof. exact isolation_refuted_api. Qed.
+
+(* isolation_partial.  rs_local h o: the op names no Nextcloud session id that the shared map resolves
+   to a session of another backend (for a join: the id it joins with; for the room API: the ids in its
+   user lists).  op_on b h o: the op acts for backend b (its connection's session is a session of b, the
+   API call is signed for b, the hello names b).  TI: rooms, members and virtual sessions stay within
+   their backend, and a connection and its session name each other; it holds in every reachable state. *)
+Theorem C03_invariants_every_history : forall limits gated ops,
+  TI (run (init limits gated) ops) /\ TI (qrun (init limits gated) ops).
+Proof. intros. split; [apply ti_reachable|apply ti_reachable_q]. Qed.
+
+(* One op of backend b, step and quiescent semantics: (a) every session of another backend is unchanged
+   (the whole record), none appears or disappears; (b) messages go to the op's own connection or to a
+   connection of a session of b; (c) rooms of other backends are unchanged; what is queued on the bus
+   is a publication of b. *)
+Theorem C03_isolation_partial_step : forall b h o,
+  WF h -> TI h -> rs_local h o = true -> op_on b h o ->
+  (forall sid s, s_backend s <> b -> get_sess h sid = Some s \/ get_sess (fst (step h o)) sid = Some s ->
+     get_sess (fst (step h o)) sid = get_sess h sid) /\
+  (forall c m, In (ToConn c m) (snd (step h o)) -> Some c = own_conn o \/ bconn b h c) /\
+  (forall b' rn, b' <> b -> room_of (fst (step h o)) (b', rn) = room_of h (b', rn)) /\
+  (forall p, In p (h_bus (fst (step h o))) -> In p (h_bus h) \/ pub_ok b (fst (step h o)) p).
+Proof. exact isolation_partial_step. Qed.
+Theorem C03_isolation_partial : forall b h o,
+  WF h -> TI h -> rs_local h o = true -> op_on b h o -> bus_all b h ->
+  ((forall sid s, s_backend s <> b -> get_sess h sid = Some s \/ get_sess (fst (qstep h o)) sid = Some s ->
+     get_sess (fst (qstep h o)) sid = get_sess h sid) /\
+   (forall c m, In (ToConn c m) (snd (qstep h o)) -> Some c = own_conn o \/ bconn b h c) /\
+   (forall b' rn, b' <> b -> room_of (fst (qstep h o)) (b', rn) = room_of h (b', rn)) /\
+   (forall p, In p (h_bus (fst (qstep h o))) -> In p (h_bus h) \/ pub_ok b (fst (qstep h o)) p)) /\
+  bus_all b (fst (qstep h o)).
+Proof. exact isolation_partial. Qed.
+(* no message of the op reaches a connection of a session of another backend *)
+Theorem C03_isolation_victim : forall b b0 h o,
+  WF h -> TI h -> rs_local h o = true -> op_on b h o -> bus_all b h -> b0 <> b ->
+  forall c m, In (ToConn c m) (snd (qstep h o)) -> ~ bconn b0 h c.
+Proof. exact isolation_victim. Qed.
+(* deliveries are not attributable to an op: a publication of backend b (its subject names b or a
+   session of b) reaches and changes sessions of b only; for session subjects: the session itself *)
+Theorem C03_isolation_deliver : forall b h pos, WF h -> TI h ->
+  (forall p rest, take_nth (N.to_nat pos) (h_bus h) = Some (p, rest) -> pub_ok b h p) ->
+  isolated b None h (step h (ODeliver pos)).
+Proof. exact isolation_deliver. Qed.
+(* histories: ops of other backends, each naming no foreign room-session id, each starting with a
+   drained bus, leave the sessions and rooms of backend b0 as they were and send it nothing *)
+Theorem C03_isolation_history : forall b0 ops h, WF h -> TI h -> locals h ops -> others b0 h ops ->
+  same_tenant b0 h (qrun h ops) /\
+  (forall c m, In (ToConn c m) (qrun_outs h ops) -> ~ bconn b0 h c).
+Proof. exact isolation_history. Qed.
+Theorem C03_isolation_history_checked : forall b0 limits gated pre ops,
+  let h := qrun (init limits gated) pre in
+  hist_ok b0 h ops = true ->
+  same_tenant b0 h (qrun h ops) /\ (forall c m, In (ToConn c m) (qrun_outs h ops) -> ~ bconn b0 h c).
+Proof. exact isolation_history_checked. Qed.
+(* satisfiable: two tenants with coinciding room and user ids, Nextcloud session ids disjoint per backend *)
+Theorem C03_two_tenants_local :
+  hist_ok 2 (init [0; 0] false) (two_tenants_setup ++ tenant0_ops) = true /\
+  hist_ok 1 (qrun (init [0; 0] false) two_tenants_setup) tenant0_ops = true.
+Proof. exact two_tenants_local. Qed.
+(* and necessary: without the side condition a join on backend 1 closes a session of backend 0, an API
+   call of backend 1 sets the permissions of a session of backend 0 *)
+Theorem C03_isolation_refuted_without_rs_local :
+  let h := qrun (init [0; 0] false) shared_rs_pre in
+  (exists s, get_sess h 1 = Some s /\ s_backend s = 0) /\
+  get_sess (fst (qstep h (OJoin 2 7 5 (RepOk None 0)))) 1 = None /\
+  (exists s s', get_sess h 1 = Some s /\
+     get_sess (fst (qstep h (OApi 1 1 9 (AParticipants [(IdRS 5, 0, Some 24)])))) 1 = Some s' /\ s_perms s = None /\ s_perms s' = Some 24).
+Proof. exact isolation_refuted_without_rs_local. Qed.
+
 
 Print Assumptions C03_foreign_session_not_addressable.
 Print Assumptions C03_room_subject_is_per_backend.
@@ -49,3 +116,12 @@ Print Assumptions C03_user_listeners_same_backend.
 Print Assumptions C03_room_listeners_same_room.
 Print Assumptions C03_isolation_refuted_kick.
 Print Assumptions C03_isolation_refuted_api.
+Print Assumptions C03_invariants_every_history.
+Print Assumptions C03_isolation_partial_step.
+Print Assumptions C03_isolation_partial.
+Print Assumptions C03_isolation_victim.
+Print Assumptions C03_isolation_deliver.
+Print Assumptions C03_isolation_history.
+Print Assumptions C03_isolation_history_checked.
+Print Assumptions C03_two_tenants_local.
+Print Assumptions C03_isolation_refuted_without_rs_local.
